@@ -204,9 +204,102 @@ class _CanonicalBranches(ast.NodeTransformer):
             return self._guard(st, cond if not flipped else _negated(pos), arm_t) + arm_f
         return self._guard(st, pos if flipped else _negated(pos), arm_f) + arm_t
 
+    @staticmethod
+    def _loop_guard(st):
+        """`for T in IT: if C: raise E`  ->  `if any(C for T in IT): raise E`  (the element-wise guard as one condition; the
+        first offending element raises either way).  Other loops are returned unchanged."""
+        if not isinstance(st, ast.For) or st.orelse or getattr(st, "type_comment", None):
+            return st
+        body = list(st.body)
+        while body and isinstance(body[-1], ast.Continue):
+            body = body[:-1]
+        if len(body) == 1 and isinstance(body[0], ast.If) and not body[0].orelse and len(body[0].body) == 1 \
+                and isinstance(body[0].body[0], ast.Raise):
+            gen = ast.GeneratorExp(elt=body[0].test, generators=[ast.comprehension(target=copy.deepcopy(st.target), iter=st.iter,
+                                                                                   ifs=[], is_async=0)])
+            for n in ast.walk(gen.generators[0].target):
+                if isinstance(n, ast.Name):
+                    n.ctx = ast.Store()
+            call = ast.Call(func=ast.Name(id="any", ctx=ast.Load()), args=[gen], keywords=[])
+            new = ast.If(test=call, body=[body[0].body[0]], orelse=[])
+            ast.copy_location(new, st)
+            ast.copy_location(call, st)
+            ast.copy_location(gen, st)
+            ast.fix_missing_locations(new)
+            return new
+        return st
+
+    @staticmethod
+    def _mentions(node, name):
+        return any(isinstance(n, ast.Name) and n.id == name for n in ast.walk(node))
+
+    def _accumulate_loops(self, stmts):
+        """`X = {}` ... `for T in IT: X[K] = V`  ->  `X = {K: V for T in IT}` and
+        `X = []` ... `for T in IT: [if C:] X.append(E)`  ->  `X = [E for T in IT [if C]]`
+        (nothing between the two statements mentions X, and IT / K / V / E / C do not either)."""
+        out = list(stmts)
+        changed = True
+        while changed:
+            changed = False
+            for j, lp in enumerate(out):
+                if not isinstance(lp, ast.For) or lp.orelse or len(lp.body) != 1:
+                    continue
+                b = lp.body[0]
+                cond = None
+                if isinstance(b, ast.If) and not b.orelse and len(b.body) == 1:
+                    cond, b = b.test, b.body[0]
+                kind = name = None
+                if isinstance(b, ast.Assign) and len(b.targets) == 1 and isinstance(b.targets[0], ast.Subscript) \
+                        and isinstance(b.targets[0].value, ast.Name) and cond is None:
+                    kind, name = "dict", b.targets[0].value.id
+                    parts = [b.targets[0].slice, b.value]
+                elif isinstance(b, ast.Expr) and isinstance(b.value, ast.Call) and isinstance(b.value.func, ast.Attribute) \
+                        and b.value.func.attr == "append" and isinstance(b.value.func.value, ast.Name) \
+                        and len(b.value.args) == 1 and not b.value.keywords:
+                    kind, name = "list", b.value.func.value.id
+                    parts = [b.value.args[0]]
+                if kind is None:
+                    continue
+                if any(self._mentions(x, name) for x in parts + [lp.iter] + ([cond] if cond is not None else [])):
+                    continue
+                # the initialisation: the closest earlier statement of the block that mentions X must be `X = {}` / `X = []`
+                init = None
+                for i in range(j - 1, -1, -1):
+                    if self._mentions(out[i], name):
+                        st0 = out[i]
+                        if isinstance(st0, ast.Assign) and len(st0.targets) == 1 and isinstance(st0.targets[0], ast.Name) \
+                                and st0.targets[0].id == name:
+                            v0 = st0.value
+                            empty_dict = (isinstance(v0, ast.Dict) and not v0.keys) or \
+                                (isinstance(v0, ast.Call) and isinstance(v0.func, ast.Name) and v0.func.id == "dict" and not v0.args and not v0.keywords)
+                            empty_list = (isinstance(v0, ast.List) and not v0.elts) or \
+                                (isinstance(v0, ast.Call) and isinstance(v0.func, ast.Name) and v0.func.id == "list" and not v0.args and not v0.keywords)
+                            if (kind == "dict" and empty_dict) or (kind == "list" and empty_list):
+                                init = i
+                        break
+                if init is None:
+                    continue
+                tgt = copy.deepcopy(lp.target)
+                for n in ast.walk(tgt):
+                    if isinstance(n, (ast.Name, ast.Tuple, ast.List, ast.Starred)):
+                        n.ctx = ast.Store()
+                gen = [ast.comprehension(target=tgt, iter=lp.iter, ifs=[cond] if cond is not None else [], is_async=0)]
+                comp = ast.DictComp(key=parts[0], value=parts[1], generators=gen) if kind == "dict" else \
+                    ast.ListComp(elt=parts[0], generators=gen)
+                new = ast.Assign(targets=[ast.Name(id=name, ctx=ast.Store())], value=comp)
+                ast.copy_location(new, lp)
+                ast.copy_location(comp, lp)
+                ast.fix_missing_locations(new)
+                out[j] = new
+                del out[init]
+                changed = True
+                break
+        return out
+
     def _flatten(self, stmts, fn_level=False):
         out = []
         i = 0
+        stmts = self._accumulate_loops([self._loop_guard(x) for x in stmts])
         while i < len(stmts):
             st = stmts[i]
             rest = stmts[i + 1:]
@@ -318,7 +411,14 @@ class Repo:
             self._index_module(mi)
         self.digest = h.hexdigest()
         self.n_files = len(files)
+        kf = os.path.join(os.path.dirname(os.path.abspath(__file__)), "known_funcs.txt")
+        with open(kf, encoding="utf-8") as fh:
+            self.known_funcs = {l.strip() for l in fh if l.strip() and not l.startswith("#")}
         self._link_dispatch()
+
+    def is_new_function(self, qual):
+        """a function the rules do not know (introduced after they were written, typically by extracting a helper)"""
+        return qual in self.funcs and qual.split("#")[0] not in self.known_funcs
 
     # ------------------------------------------------------------------ indexing
     def _index_module(self, mi):
